@@ -142,7 +142,7 @@ def _table(chk, thorough):
 
 def _lifecycle(chk, thorough):
   workers = min(8, tlc.DEFAULT_WORKERS)
-  total, depth = (12000, 12) if thorough else (800, 10)
+  total, depth = (9600, 12) if thorough else (800, 10)
   behaviours, r = tlc.simulate('Callable', 'C18_sim.cfg', num=max(1, total // workers), depth=depth,
                                seed=chk.seed * 1000 + 1, workers=workers, timeout=1500)
   chk.add_tlc(r, count_states=False)
